@@ -822,7 +822,7 @@ def register(avp: int, name: str, type_cls: type[_AnyAvpType],
     ```
 
     """
-    if vendor is None:
+    if not vendor:
         AVP_DICTIONARY[avp] = {"name": name, "type": type_cls,
                                "mandatory": mandatory}
     else:
